@@ -19,6 +19,9 @@ CLAIMED = {
  'C14': (TV, 'scaled NLP rows/objective proven equal (z3, QF_UFNRA) to the unscaled reference in physical quantities: constraints exactly /scale, dynamics rows up to a constant factor',
          'For every enumerated model with scale= on states, controls, algebraics, variables, derivatives, algebraic equations and constraints (distinct rational scales) and every method/grid: complete row bijection against the UNSCALED reference written in sampled physical quantities (user constraints and their bounds exactly divided by the declared scale; dynamics rows up to a nonzero constant, the factor is reported); objective equal; each sampled physical quantity / scale is a plain solver variable; starting point read back in physical units equals the guess (ground).',
          'As C01. Scales are concrete rationals, not symbolic.', '3/C14'),
+ 'C06': ('other', 'real grid kernels executed on z3 reals + NLP-level implications (grid rows => declared partition facts) decided by z3 over all values of the time variables',
+         'Bounded symbolic checking. (a) the real GeometricGrid.normalized(N) is run on a solver real growth factor: start 0, end 1, strict monotonicity, constant ratio = g (local) / last = g*first (global, g**(1/(N-1)) stubbed by r with r^(N-1)=g), for ALL g>=1, N<=8. (b) for every enumerated (grid class/options, N, M, method, horizon kind): hypotheses = the time-grid rows of the real NLP, conclusions = tc[0]=t0, tc[N]=t0+T, tc[k]=t0+n_k*T, strict monotonicity for T>0, M equal sub-steps, sampled t/DT/DT_control agree, min<=dt<=max; each conclusion proven by unsat of hypotheses & not(conclusion); a sat answer is a time-variable assignment that is replayed.',
+         'CasADi graph + Function.expand; z3; reals for floats; Density grids outside (numeric root finding).', '3/C06'),
 }
 NA = {p: 'check not built yet in this round (see DESIGN.md section 3 for the plan)' for p in
       ['C02','C03','C04','C05','C06','C07','C08','C09','C10','C11','C12','C13','C14','C15','C16','C17','C18','C19']}
